@@ -14,12 +14,22 @@ def main():
         scenarios = json.load(fh)
     os.chdir(wd)
     ctx = mod.setup(wd)
+    import threading
+
+    limit = float(os.environ.get("VERIF_SCENARIO_LIMIT", getattr(mod, "SCENARIO_LIMIT", 240)))
     with open(outp, "w") as out:
         for scn in scenarios:
+            # a scenario that never returns (a wedged pipeline inside the code under test) must not hold the
+            # whole check until the pool's timeout: the worker ends itself, the parent re-runs what is left
+            watchdog = threading.Timer(limit, lambda: os._exit(97))
+            watchdog.daemon = True
+            watchdog.start()
             try:
                 res = mod.run(ctx, scn)
             except BaseException as e:  # noqa: BLE001 - report, do not die
                 res = {"driver_exception": f"{type(e).__name__}: {e}", "tb": traceback.format_exc()[-3000:]}
+            finally:
+                watchdog.cancel()
             out.write(json.dumps(res) + "\n")
             out.flush()
     sys.stdout.flush()
